@@ -15,7 +15,7 @@ RULE = (
     "Q diag(lambda) Q^T (lambda in [0.1,10]). process_model's state is compared by name with the mpmath evaluation of "
     "the generator's tree and its covariance with G P G^T + V M V^T computed in 60-digit mpmath from central-difference "
     "Jacobians and the named noises (tolerance 1e-9*abs-scale); inputs must be bitwise unchanged and a second call "
-    "bit-identical. Non-trivial = >=2 states, >=1 control, V M V^T contributes >=1e-6 of ||P'|| and G is not symmetric "
+    "bit-identical, also when the covariance passed in is the result of a previous call (no aliasing of internal buffers). Non-trivial = >=2 states, >=1 control, V M V^T contributes >=1e-6 of ||P'|| and G is not symmetric "
     "(so G^T P G would differ); in half of the cases process noises and prior are scaled together by 1e-14 / 1e-9 / 1e5 "
     "with the covariance tolerance scaling along; distinct = sha1(model spec)."
 )
@@ -102,6 +102,18 @@ def case(spec, ctx):
                 asym = max(abs(G[i, j] - G[j, i]) for i in range(G.rows) for j in range(G.cols))
                 if nV >= 1e-6 * nP and asym > 1e-6:
                     nontrivial = True
+        # results are values, not views of the filter's internals: feed the result back in, then look at it again
+        keep = (np.array(out.state.data, float).copy(), np.array(out.covariance.data, float).copy())
+        with ctx.formak("process_model:chained", spec):
+            chained = f.process_model(dt, state, out.covariance, control)
+            chained2 = f.process_model(dt, state, out.covariance, control)
+        if not (np.array_equal(keep[0], out.state.data) and np.array_equal(keep[1], out.covariance.data)):
+            ctx.fail("inputs-modified:chained", "a previous result passed back as input was modified by process_model "
+                                                "(the returned covariance/state aliases internal storage)", spec)
+        if not (np.array_equal(chained.covariance.data, chained2.covariance.data) and np.array_equal(chained.state.data, chained2.state.data)):
+            ctx.fail("not-repeatable:chained", "repeating a call whose inputs are a previous result gives another answer", spec)
+        if chained.covariance.data is out.covariance.data or np.shares_memory(chained.covariance.data, out.covariance.data):
+            ctx.fail("inputs-modified:chained", "result shares memory with its input", spec)
         ctx.event("dt>0" if dt > 0 else ("dt<0" if dt < 0 else "dt=0"))
 
     ctx.event(f"controls={len(ct)}")
